@@ -93,6 +93,15 @@ def generate(rnd, phrases, n):
             s = "{%s} * 2" % rnd.choice(phrases)
         elif c < 0.32:
             s = "0 - %s" % s
+        if rnd.random() < 0.07:
+            # both operands of one operation fail, each in its own way: the error that is reported (message and range) is part of the
+            # answer, and must not depend on the describe flag either
+            def failing():
+                return rnd.choice(["1 / 0", "%s / 0" % rnd.choice(phrases), "nope(%s)" % operand(), "nosuchfact here now", "(2 m + 3 s)",
+                                   "(%s to nosuchunit)" % rnd.choice(phrases), "(1 ft to s)", "0 ^ -1", "(%s + 1 s + 1 m)" % rnd.choice(phrases)])
+            s = "%s%s%s" % (failing(), rnd.choice([" + ", " - ", " * ", " / "]), failing())
+            if rnd.random() < 0.3:
+                s = "%s%s%s" % (s, rnd.choice([" + ", " * "]), failing())
         out.append(s)
     return out
 
